@@ -73,10 +73,11 @@ def main():
             r = subprocess.run(["timeout", "3000", os.path.join(here, "check"), chk, "--tier", "quick"], stdout=subprocess.PIPE, stderr=subprocess.STDOUT, text=True, env=env)
             keys = [l.split("::")[0].replace("violation key=", "").strip() for l in r.stdout.splitlines() if l.startswith("violation key=")]
             foreign = [l for l in r.stdout.splitlines() if l.startswith("note: anomaly")]
+            fkeys = sorted(set((l.split("belonging to ")[1].split(" ")[0] + ":" + l.split(": ", 2)[-1].split(" (reported")[0]) for l in foreign if "belonging to " in l))
             verdict = "CAUGHT" if r.returncode == 1 and "VIOLATION property=" in r.stdout else ("inconclusive" if r.returncode == 2 else "MISSED")
             if "HARNESS-FAILURE" in r.stdout:
                 verdict = "does-not-build"
-            print("%-44s %s %-12s keys=%s%s" % (mid, chk, verdict, ",".join(keys[:4]), (" | other-property notes: %d" % len(foreign)) if foreign else ""), flush=True)
+            print("%-44s %s %-12s keys=%s%s" % (mid, chk, verdict, ",".join(keys[:4]), (" | seen as other properties' anomalies: " + ",".join(fkeys[:5])) if foreign else ""), flush=True)
         finally:
             shutil.rmtree(tmp, ignore_errors=True)
 
